@@ -92,6 +92,8 @@ def physical(draw, nrev, hist):
         out.append({
             "form": form, "pack": pack, "nstm": draw(st.integers(1, 3)),
             "eol": draw(st.sampled_from([b"\n", b"\r\n", b"\r"])),
+            # the value of an object may start on the line of its header: `4 0 obj <<...>>`, `4 0 obj<<...>>`
+            **({"head_sep": draw(st.sampled_from([b" ", b"", b"\t"]))} if draw(st.integers(0, 3)) == 0 else {}),
             # the dictionary may follow the keyword `trailer` on the same line
             **({"trailer_sep": draw(st.sampled_from([b" ", b"", b"  ", b"\t"]))} if draw(st.integers(0, 3)) == 0 else {}),
             "entry_eol": draw(st.sampled_from([b" \n", b" \r", b"\r\n"])),
@@ -236,6 +238,8 @@ def damage_doc(case):
     revs = [{"defs": objs, "root": 1, "info": None, "form": "table", "eol": case.get("eol", b"\n"),
              "entry_eol": case.get("entry_eol", b" \n"), "split": case.get("split", False),
              "stream_eol": case.get("stream_eol", b"\n"), "stream_end_eol": case.get("stream_end_eol", b"\n")}]
+    if case.get("head_sep") is not None:
+        revs[0]["head_sep"] = case["head_sep"]
     data, meta = X.write_history(revs)
     return data, meta, objs
 
@@ -341,7 +345,9 @@ def damage_cases(draw):
             "eol": draw(st.sampled_from([b"\n", b"\r\n"])), "bufsiz": draw(st.sampled_from(BUFS)),
             # /Length delimits the data: an EOL before `endstream` is optional
             "stream_eol": draw(st.sampled_from([b"\n", b"\r\n"])),
-            "stream_end_eol": draw(st.sampled_from([b"\n", b"\r\n", b"\r", b""]))}
+            "stream_end_eol": draw(st.sampled_from([b"\n", b"\r\n", b"\r", b""])),
+            # the body scan must find `4 0 obj <<...>>` and `4 0 obj<<...>>` as well as a header on a line of its own
+            "head_sep": draw(st.sampled_from([None, None, b" ", b"", b"\t"]))}
 
 
 def run_damage(case):
